@@ -85,6 +85,7 @@ func DecodedBitStreamParser_decode(bytes []byte) (*common.DecoderResult, error) 
 
 	for mode != Mode_PDA_ENCODE && bits.Available() > 0 {
 		var e error
+		start, isBase256 := len(result), mode == Mode_BASE256_ENCODE
 		if mode == Mode_ASCII_ENCODE {
 			mode, result, resultTrailer, e = decodeAsciiSegment(bits, result, resultTrailer, fnc1Positions)
 		} else {
@@ -108,6 +109,10 @@ func DecodedBitStreamParser_decode(bytes []byte) (*common.DecoderResult, error) 
 		}
 		if e != nil {
 			return nil, e
+		}
+		if !isBase256 {
+			// these segments append ISO-8859-1 bytes (Base 256 appends UTF-8 already)
+			result = latin1ToUTF8(result, start)
 		}
 	}
 	if len(resultTrailer) > 0 {
@@ -138,6 +143,21 @@ func DecodedBitStreamParser_decode(bytes []byte) (*common.DecoderResult, error) 
 	}
 
 	return common.NewDecoderResultWithSymbologyModifier(bytes, string(result), byteSegments, "", symbologyModifier), nil
+}
+
+// latin1ToUTF8 re-encodes the ISO-8859-1 bytes b[start:] as UTF-8 in place.
+func latin1ToUTF8(b []byte, start int) []byte {
+	for i := start; i < len(b); i++ {
+		if b[i] >= 0x80 {
+			tail := append([]byte(nil), b[i:]...)
+			b = b[:i]
+			for _, c := range tail {
+				b = append(b, string(rune(c))...)
+			}
+			return b
+		}
+	}
+	return b
 }
 
 // decodeAsciiSegment See ISO 16022:2006, 5.2.3 and Annex C, Table C.2
